@@ -526,4 +526,264 @@ theorem clear_refines (C : Crypto) (hC : HashWF C) (c : Core) (d : Disk) (a : Ab
     exact ⟨fun i hi => by rw [k4]; exact hspec.1 i hi, by rw [k4]; exact hspec.2⟩
   · rw [hsplit, k7]; exact hdata2
 
+/-! ### append -/
+
+theorem flatten_getD (l : List Bytes) : ∀ (j x : Nat), x < (l.getD j []).length →
+    ((l.take j).map List.length).sum + x < l.flatten.length
+      ∧ l.flatten.getD (((l.take j).map List.length).sum + x) 0 = (l.getD j []).getD x 0 := by
+  induction l with
+  | nil => intro j x hx; simp at hx
+  | cons b rest ih =>
+    intro j x hx
+    cases j with
+    | zero =>
+      simp only [List.getD_cons_zero] at hx ⊢
+      simp only [List.take_zero, List.map_nil, List.sum_nil, Nat.zero_add, List.flatten_cons, List.length_append]
+      refine ⟨by omega, ?_⟩
+      rw [List.getD_eq_getElem?_getD, List.getElem?_append_left hx, ← List.getD_eq_getElem?_getD]
+    | succ j =>
+      simp only [List.getD_cons_succ] at hx ⊢
+      obtain ⟨i1, i2⟩ := ih j x hx
+      simp only [List.take_succ_cons, List.map_cons, List.sum_cons, List.flatten_cons, List.length_append]
+      refine ⟨by omega, ?_⟩
+      rw [Nat.add_assoc, List.getD_eq_getElem?_getD, List.getElem?_append_right (by omega), Nat.add_sub_cancel_left,
+        ← List.getD_eq_getElem?_getD]
+      exact i2
+
+theorem fold_batchLength (C : Crypto) (batch : List Bytes) (cs : Changeset) :
+    (batch.foldl (Tree.append C) cs).batchLength = cs.batchLength + batch.length := by
+  induction batch generalizing cs with
+  | nil => rfl
+  | cons b rest ih =>
+    simp only [List.foldl_cons, ih, List.length_cons]
+    simp [Tree.append, Tree.appendRoot]
+    omega
+
+theorem commit_unflushed (t t' : Tree) (cs : Changeset) (h : t.commit cs = .ok t') :
+    t'.unflushed = insertAll t.unflushed cs.nodes := by
+  unfold Tree.commit at h
+  split at h
+  · cases h
+  · split at h
+    · cases h
+    · cases h
+      simp only [insertAll]
+      split <;> rfl
+
+theorem entryOf_contig (cs : Changeset) (bu : Option BitfieldUpdate) (h : Header) : (entryOf cs bu h).2.contiguous = h.contiguous := by
+  unfold entryOf
+  split <;> rfl
+
+theorem sz_append_lt (bs : Array Bytes) (l : List Bytes) (i : Nat) (h : i < bs.size) : sz (bs ++ l.toArray) i = sz bs i := by
+  simp only [sz, getD_append_lt bs l i h]
+
+theorem append_refines (C : Crypto) (hC : HashWF C) (c : Core) (d : Disk) (a : Abs) (h : Rep C c d a) (batch : List Bytes)
+    (hv : Valid a (.append batch)) :
+    (stepC C (c, d) (.append batch)).2 = (a.step (.append batch)).2
+      ∧ Rep C (stepC C (c, d) (.append batch)).1.1 (stepC C (c, d) (.append batch)).1.2 (a.step (.append batch)).1 := by
+  obtain ⟨seed, hseed⟩ : ∃ seed, c.secret = some seed := Option.isSome_iff_exists.mp h.writer
+  have hlen : c.tree.length = a.blocks.size := h.tree.length
+  have hbytes : c.tree.byteLength = totalBytes a.blocks := h.tree.bytes
+  by_cases hemp : batch.isEmpty = true
+  · have e1 : stepC C (c, d) (.append batch) = ((c, d), Obs.appended a.blocks.size (totalBytes a.blocks)) := by
+      simp [stepC, Core.appendBatch, hseed, hemp, obsOf, Disk.applyAll, hlen, hbytes]
+    have e2 : a.step (.append batch) = (a, Obs.appended a.blocks.size (totalBytes a.blocks)) := by simp [Abs.step, hemp]
+    rw [e1, e2]; exact ⟨rfl, h⟩
+  have hne : batch ≠ [] := by intro e; apply hemp; simp [e]
+  have hk : 0 < batch.length := List.length_pos_iff.mpr hne
+  -- the abstract successor
+  let n := a.blocks.size
+  let bs' := a.blocks ++ batch.toArray
+  let held' : Nat → Bool := fun i => a.held i || (decide (n ≤ i) && decide (i < n + batch.length))
+  have habs : a.step (.append batch) = ({ blocks := bs', held := held' }, Obs.appended bs'.size (totalBytes bs')) := by
+    simp only [Abs.step, hemp]; rfl
+  have hsize' : bs'.size = n + batch.length := by simp [bs', n]
+  -- the changeset
+  generalize hcs0 : batch.foldl (Tree.append C) c.tree.changeset = cs0
+  have hroots0 : RootsOK C bs' cs0 := by rw [← hcs0]; exact appendMany_ref C batch a.blocks _ h.tree
+  obtain ⟨t', hcommit, hT'⟩ := commit_ref C a.blocks c.tree batch seed hne h.tree
+  rw [hcs0] at hcommit
+  generalize hcs : hashAndSign C cs0 seed = cs at hcommit
+  have hanc : cs.ancestors = n := by
+    rw [← hcs, ← hcs0]
+    have : ∀ (l : List Bytes) (x : Changeset), (l.foldl (Tree.append C) x).ancestors = x.ancestors := by
+      intro l; induction l with
+      | nil => intro x; rfl
+      | cons b r ih => intro x; simp only [List.foldl_cons, ih]; simp [Tree.append, Tree.appendRoot]
+    simp only [hashAndSign, this, Tree.changeset, hlen, n]
+  have hbl : cs.batchLength = batch.length := by
+    rw [← hcs, ← hcs0]
+    simp [hashAndSign, fold_batchLength, Tree.changeset]
+  have hnodes : cs.nodes = cs0.nodes := by rw [← hcs]; rfl
+  have hunfl : t'.unflushed = insertAll c.tree.unflushed cs0.nodes := by
+    rw [← hnodes]; exact commit_unflushed _ _ _ hcommit
+  -- lookup and well-formedness of the new tree
+  have hN' : NodesOK C bs' t' d.tree :=
+    nodesOK_insert C hC a.blocks batch c.tree t' d.tree c.tree.changeset h.tree rfl (by rw [hcs0]; exact hunfl) h.nodes
+  have htot' : psum bs' bs'.size = totalBytes bs' := psum_total bs'
+  have hwf' : MapWF t'.unflushed := by
+    rw [hunfl]
+    apply mapWF_insertAll _ _ h.mapwf
+    intro x hx
+    obtain ⟨added, eadd, sound, _⟩ := appendMany_nodes C batch a.blocks c.tree.changeset h.tree
+    rw [hcs0] at eadd
+    have hx' : x ∈ added := by
+      have : cs0.rnodes = added := by simpa [Tree.changeset] using eadd
+      simpa [Changeset.nodes, this] using hx
+    obtain ⟨dd, o, rfl, hb⟩ := sound x hx'
+    refine ⟨nodeAt_hash_len C hC _ _ _, ?_⟩
+    have h1 := nodeAt_length_le C bs' dd o
+    have h2 := psum_mono bs' (show (o + 1) * 2 ^ dd ≤ bs'.size by rw [hsize']; exact hb)
+    have := hv.2
+    simp only [bs'] at h1 h2 htot' ⊢
+    omega
+  -- bitfield and hint
+  generalize hbf : c.bitfield.setRange n batch.length true = bf
+  have hbits' : ∀ i, bf.get i = held' i := by
+    intro i
+    rw [← hbf, Bitfield.get_setRange, h.bits]
+    by_cases hin : n ≤ i ∧ i < n + batch.length
+    · simp [held', hin]
+    · by_cases h1 : n ≤ i
+      · have : ¬ i < n + batch.length := by omega
+        simp [held', hin, h1, this]
+      · simp [held', hin, h1]
+  generalize heo : entryOf cs (some ⟨false, n, batch.length⟩) c.header = eo
+  have heoc : eo.2.contiguous = c.header.contiguous := by rw [← heo]; exact entryOf_contig _ _ _
+  obtain ⟨entry, hd1⟩ := eo
+  simp only at heoc
+  generalize hhd2 : updateContiguous hd1 bf ⟨false, n, batch.length⟩ = hd2
+  have hcontig' : FirstMissing bf hd2.contiguous := by
+    have := updateContiguous_spec hd1 c.bitfield ⟨false, n, batch.length⟩ (by rw [heoc]; exact h.contig) hk
+    simp only [Bool.not_false] at this
+    rw [hbf, hhd2] at this
+    exact this
+  generalize hent : Oplog.appendEntry c.oplog entry = ent
+  have hj1 : ∀ op ∈ ent.2, op.store = .oplog := by rw [← hent]; exact Journal.appendEntry_store _ _
+  generalize hc1 : ({ c with secret := some seed, oplog := ent.1, header := hd2, bitfield := bf, tree := t' } : Core) = c1
+  have c1tree : c1.tree = t' := by rw [← hc1]
+  have c1bf : c1.bitfield = bf := by rw [← hc1]
+  have c1sec : c1.secret = c.secret := by rw [← hc1, hseed]
+  have c1hdr : c1.header = hd2 := by rw [← hc1]
+  have hstep : stepC C (c, d) (.append batch) =
+      ((c1.maybeFlush.1, d.applyAll ([SOp.write .data c.tree.byteLength batch.flatten] ++ ent.2 ++ c1.maybeFlush.2)),
+        Obs.appended c1.maybeFlush.1.tree.length c1.maybeFlush.1.tree.byteLength) := by
+    simp only [stepC, Core.appendBatch, hseed, hemp, Bool.false_eq_true, ite_false, hcs0, hcs, hanc, hbl, heo, hbf, hhd2,
+      hent, hcommit, hc1, obsOf]
+  rw [hstep, habs]
+  -- the disk before the flush
+  generalize hd0 : d.apply (SOp.write .data c.tree.byteLength batch.flatten) = d0
+  have hd0data : d0.data = d.data.write c.tree.byteLength batch.flatten := by
+    rw [← hd0]
+    have := Journal.apply_get d (SOp.write .data c.tree.byteLength batch.flatten) .data
+    simpa [SOp.store, SOp.onFile, Disk.get] using this
+  have hd0tree : d0.tree = d.tree := by
+    rw [← hd0]
+    have := Journal.apply_get d (SOp.write .data c.tree.byteLength batch.flatten) .tree
+    simpa [SOp.store, SOp.onFile, Disk.get] using this
+  have hsplit : d.applyAll ([SOp.write .data c.tree.byteLength batch.flatten] ++ ent.2 ++ c1.maybeFlush.2)
+      = (d0.applyAll ent.2).applyAll c1.maybeFlush.2 := by
+    rw [Journal.applyAll_append, Journal.applyAll_append, applyAll_one, hd0]
+  have hd1tree : (d0.applyAll ent.2).tree = d.tree := by
+    rw [tree_of_applyAll _ _ (fun op hop => by rw [hj1 op hop]; decide), hd0tree]
+  have hd1data : (d0.applyAll ent.2).data = d.data.write c.tree.byteLength batch.flatten := by
+    rw [data_of_applyAll _ _ (fun op hop => by rw [hj1 op hop]; decide), hd0data]
+  obtain ⟨k1, k2, k3, k4, k5, k6, k7⟩ := maybeFlush_keeps C hC bs' c1 (d0.applyAll ent.2)
+    (by rw [c1tree, hd1tree]; exact hN') (by rw [c1tree]; exact hwf')
+  have hT'' : RootsOK C bs' c1.maybeFlush.1.tree.changeset := by rw [k1, c1tree]; exact hT'
+  have hlen' : c1.maybeFlush.1.tree.length = bs'.size := hT''.length
+  have hbytes' : c1.maybeFlush.1.tree.byteLength = totalBytes bs' := hT''.bytes
+  refine ⟨by rw [hlen', hbytes'], ?_⟩
+  have hT : c.tree.byteLength = psum a.blocks n := by rw [hbytes, ← psum_total]
+  refine { writer := ?_, tree := hT'', nodes := ?_, mapwf := k3, bits := ?_, heldLt := ?_, contig := ?_, data := ?_, small := ?_ }
+  · rw [k6, c1sec]; exact h.writer
+  · rw [hsplit]; exact k2
+  · intro i; rw [k4, c1bf]; exact hbits' i
+  · intro i hi
+    simp only [held', Bool.or_eq_true, Bool.and_eq_true, decide_eq_true_eq] at hi
+    rcases hi with hi | hi
+    · have := h.heldLt i hi; rw [hsize']; omega
+    · rw [hsize']; omega
+  · rw [k5, c1hdr]
+    exact ⟨fun i hi => by rw [k4, c1bf]; exact hcontig'.1 i hi, by rw [k4, c1bf]; exact hcontig'.2⟩
+  · rw [hsplit, k7, hd1data]
+    intro i hi kk hkk
+    simp only [held', Bool.or_eq_true, Bool.and_eq_true, decide_eq_true_eq] at hi
+    by_cases hin : i < n
+    · -- an old block: below the write
+      have hold : a.held i = true := by
+        rcases hi with hi | hi
+        · exact hi
+        · omega
+      have e1 : psum bs' i = psum a.blocks i := psum_append_le a.blocks batch i (by omega)
+      have e2 : sz bs' i = sz a.blocks i := sz_append_lt a.blocks batch i hin
+      have e3 : bs'.getD i [] = a.blocks.getD i [] := getD_append_lt a.blocks batch i hin
+      rw [e2] at hkk
+      obtain ⟨o1, o2⟩ := h.data i hold kk hkk
+      have h1 := psum_succ_gt a.blocks i kk hkk
+      have h2 := psum_mono a.blocks (show i + 1 ≤ n by omega)
+      rw [e1, e3, File.size_write, File.byte_write]
+      have : ¬ (c.tree.byteLength ≤ psum a.blocks i + kk ∧ psum a.blocks i + kk < c.tree.byteLength + batch.flatten.length) := by omega
+      simp only [this, ite_false]
+      exact ⟨by omega, o2⟩
+    · -- a block of the batch
+      have hnew : n ≤ i ∧ i < n + batch.length := by
+        rcases hi with hi | hi
+        · have := h.heldLt i hi; omega
+        · exact hi
+      obtain ⟨j, rfl⟩ : ∃ j, i = n + j := ⟨i - n, by omega⟩
+      have e1 : psum bs' (n + j) = psum a.blocks n + ((batch.take j).map List.length).sum := psum_append_new a.blocks batch j
+      have e3 : bs'.getD (n + j) [] = batch.getD j [] := getD_append_ge a.blocks batch j
+      have e2 : sz bs' (n + j) = (batch.getD j []).length := by simp only [sz, e3]
+      rw [e2] at hkk
+      obtain ⟨f1, f2⟩ := flatten_getD batch j kk hkk
+      rw [e1, e3, File.size_write, File.byte_write, hT]
+      have : psum a.blocks n ≤ psum a.blocks n + ((batch.take j).map List.length).sum + kk
+          ∧ psum a.blocks n + ((batch.take j).map List.length).sum + kk < psum a.blocks n + batch.flatten.length := by omega
+      simp only [this, and_self, ite_true]
+      refine ⟨by omega, ?_⟩
+      have e4 : psum a.blocks n + ((batch.take j).map List.length).sum + kk - psum a.blocks n
+          = ((batch.take j).map List.length).sum + kk := by omega
+      rw [e4]; exact f2
+  · exact ⟨by rw [hsize']; exact hv.1, hv.2⟩
+
+/-! ### the freshly created core -/
+
+theorem init_rep (C : Crypto) (pk sk : Bytes) :
+    ∃ c j, Core.openCore C (some (pk, some sk)) {} = .ok (c, j) ∧ Rep C c (({} : Disk).applyAll j) {} := by
+  generalize hih : Oplog.insertHeader (Header.new pk (some sk)) 0 Spec.initialBits false = ih
+  have hops : ∀ op ∈ ih.2, op.store = .oplog := by rw [← hih]; exact Journal.insertHeader_store _ _ _ _
+  have ho : Oplog.openLog (some (pk, some sk)) [] = .ok ⟨{ bits := ih.1 }, Header.new pk (some sk), ih.2, []⟩ := by
+    simp [Oplog.openLog, Spec.headerSize, Spec.entriesOffset, hih]
+  have hd1tree : (({} : Disk).applyAll ih.2).tree = File.empty :=
+    tree_of_applyAll _ _ (fun op hop => by rw [hops op hop]; decide)
+  have hd1data : (({} : Disk).applyAll ih.2).data = File.empty :=
+    data_of_applyAll _ _ (fun op hop => by rw [hops op hop]; decide)
+  have hd1bf : (({} : Disk).applyAll ih.2).bitfield = File.empty :=
+    Journal.applyAll_other _ _ .bitfield (fun op hop => by rw [hops op hop]; decide)
+  have htree : Tree.openTree (Header.new pk (some sk)).tree (({} : Disk).applyAll ih.2).tree = .ok {} := by
+    rw [hd1tree]
+    simp [Tree.openTree, Header.new, Flat.fullRoots, Flat.fullRootsAux, Tree.openTree.load]
+  have hbf : Bitfield.ofFile (({} : Disk).applyAll ih.2).bitfield = {} := by
+    rw [hd1bf]; simp [Bitfield.ofFile, File.empty, File.size]
+  refine ⟨{ publicKey := pk, secret := some sk, oplog := { bits := ih.1 }, header := Header.new pk (some sk),
+            tree := {}, bitfield := {}, skipFlush := 0 }, ih.2, ?_, ?_⟩
+  · have hdisk : (({} : Disk).oplog.toList) = [] := rfl
+    simp only [Core.openCore, hdisk, ho, htree, hbf, Core.openCore.replay]
+    rfl
+  · refine { writer := rfl, tree := ?_, nodes := ?_, mapwf := ?_, bits := ?_, heldLt := ?_, contig := ?_, data := ?_, small := ?_ }
+    · exact ⟨rfl, by simp [rootsStack_zero, Tree.changeset], rfl⟩
+    · intro dd o hb
+      have := pow_pos' dd
+      have : 1 * 2 ^ dd ≤ (o + 1) * 2 ^ dd := Nat.mul_le_mul_right _ (by omega)
+      exfalso
+      have hb' : (o + 1) * 2 ^ dd ≤ 0 := by simpa using hb
+      omega
+    · intro k n hk; simp at hk
+    · intro i; simp [Bitfield.get]
+    · intro i hi; simp at hi
+    · exact ⟨fun i hi => by simp [Header.new] at hi, by simp [Bitfield.get]⟩
+    · intro i hi; simp at hi
+    · exact ⟨by simp, by simp [totalBytes]⟩
+
 end HC.LiveRefine
